@@ -135,6 +135,8 @@ def gen_scenario(rng, conflict=None):
             # multi-step conflicts: an attendance pass (which works on a snapshot and cleans up at its end) against a consumer
             # that deregisters, registers again and subscribes anew while the pass is under way
             ([{"op": "attend"}, {"_interval_subs": True}], [{"op": "attend"}]),
+            # a deregistration (registration and ALL subscriptions of the consumer) against unsubscriptions of two of them
+            ([{"op": "dereg_c2"}], [{"op": "unsub", "pre": 0}, {"op": "unsub", "pre": 1}]),
             ([{"op": "attend"}], [{"op": "dereg_c2"}, {"op": "reg_c2"}, {"op": "subscribe"}]),
             ([{"op": "attend"}, {"op": "attend"}], [{"op": "dereg_c2"}, {"op": "reg_c2"}, {"op": "subscribe"}, {"op": "add"}]),
         ]
@@ -144,7 +146,7 @@ def gen_scenario(rng, conflict=None):
         if isinstance(pair[0], list):
             if any("_interval_subs" in o for o in pair[0] + pair[1]):
                 pre["interval_subs"] = True
-                pre["subs"] = 2
+            pre["subs"] = 2
             actors[0], actors[1] = [dict(o) for o in pair[0] if "op" in o], [dict(o) for o in pair[1] if "op" in o]
             actors[2:] = [[{"op": rng.choice(("add", "query", "attend"))}] for _ in actors[2:3]]
         else:
@@ -760,7 +762,7 @@ def one(spec, plan, policy, res, mode, log_from=None, instr_points=True):
 
 
 # -------------------------------------------------------------------------------------------------- driver
-N_CONFLICT_PAIRS = 17
+N_CONFLICT_PAIRS = 18
 BUDGET = {"quick": {"sync": 500, "instr": 500, "random": 200}, "thorough": {"sync": 10000, "instr": 6000, "random": 4000}}
 NSHARD = {"quick": {"sync": 2, "instr": 3, "random": 2}, "thorough": {"sync": 4, "instr": 6, "random": 4}}
 # the directed two-actor conflicts are small: one shard per mode explores them
@@ -779,7 +781,7 @@ def shards(tier, seed):
     for j in range(N_CONFLICT_PAIRS * (1 if tier == "quick" else 3)):
         spec = gen_scenario(rng, conflict=j)
         for mode in ("sync", "instr", "random"):
-            multi = any(len(a) >= 3 for a in spec["actors"][:2]) and spec["actors"][0][0]["op"] in ("attend", "dereg_c2")
+            multi = any(len(a) >= 3 for a in spec["actors"][:2]) and spec["actors"][0][0]["op"] in ("attend", "dereg_c2") and spec["actors"][1][0]["op"] in ("attend", "dereg_c2")
             # the multi-step conflicts need three context switches at the right places: a larger budget, split over shards
             nsh = 4 if multi and mode != "instr" else 1
             for sh in range(nsh):
